@@ -102,7 +102,7 @@ Section CoversMain.
                   go re native T A cov (Some l) fmt enum None nv sv ik items mni mxi props req ap
                      None None None None None (S ft0) nn0 t0 = true).
         { intros t0 Hk0 ft0 nn0 Hnn.
-          destruct k as [| | | |mx mn pat|r|raws|deny| | | |r|]; try contradiction; cbn [kshape] in Hk0.
+          destruct k as [| | | |mx mn pat|r|raws|deny| |c|c|r|]; try contradiction; cbn [kshape] in Hk0.
           - subst tt. eapply go_leaf; [exact Hk0|reflexivity..|].
             cbn [leaf_ok]. apply Htyis; [exact Hnn|discriminate|reflexivity].
           - subst tt. eapply go_leaf; [exact Hk0|reflexivity..|].
@@ -150,14 +150,18 @@ Section CoversMain.
             + cbn [frag_kind] in Hf. cbn [OForall] in IHap. apply (Cv_covers _ _ false IHap Hf Hval).
             + unfold FT. apply accepts_any_json. exact Hval.
           - destruct Hk0 as (i & Hk0 & Hit). destruct Hinv as (-> & -> & it & ->).
-            eapply go_leaf; [exact Hk0|reflexivity..|].
-            cbn [leaf_ok]. rewrite (Htyis nn0 [TArray] Hnn); [|discriminate|reflexivity]. cbn [andb elem_ok].
             cbn [frag_kind forallb] in Hf. rewrite andb_true_r in Hf.
-            apply (Cv_covers _ _ false (Forall_inv IHitems) Hf Hit).
+            pose proof (Cv_covers _ _ false (Forall_inv IHitems) Hf Hit) as Hel.
+            apply seq_kind_inv in Hlen.
+            destruct c as [| |n]; cbn [seq_det] in Hk0; (eapply go_leaf; [exact Hk0|reflexivity..|]); cbn [leaf_ok];
+              (rewrite (Htyis nn0 [TArray] Hnn); [|discriminate|reflexivity]); cbn [andb elem_ok]; try exact Hel.
+            destruct Hlen as [-> ->]. rewrite N.eqb_refl. exact Hel.
           - destruct Hk0 as (i & Hk0 & Hj). destruct Hinv as (-> & -> & _).
-            eapply go_leaf; [exact Hk0|reflexivity..|].
-            cbn [leaf_ok]. rewrite (Htyis nn0 [TArray] Hnn); [|discriminate|reflexivity]. cbn [andb elem_ok].
-            unfold FT. apply accepts_any_json. exact Hj. }
+            assert (Hel : accepts_any T FT i = true) by (unfold FT; apply accepts_any_json; exact Hj).
+            apply seq_kind_inv in Hlen.
+            destruct c as [| |n]; cbn [seq_det] in Hk0; (eapply go_leaf; [exact Hk0|reflexivity..|]); cbn [leaf_ok];
+              (rewrite (Htyis nn0 [TArray] Hnn); [|discriminate|reflexivity]); cbn [andb elem_ok]; try exact Hel.
+            destruct Hlen as [-> ->]. rewrite N.eqb_refl. exact Hel. }
         destruct nl.
         * destruct Hs as (i & Ht & Hki). eapply go_option; [exact Ht|]. apply (Hleaf i Hki ft true). reflexivity.
         * apply (Hleaf t Hs (S ft) nn). discriminate.
